@@ -56,7 +56,7 @@ IntSig(an, bn)  == <<Arg(an, I2), Arg(bn, I2), Arg("t", TTup(<<I2, I2>>)), Arg("
 BoolActuals(an, bn) == {Name(an), Name(bn), Sub(Name("t"), CI(0)), Sub(Name("t"), CI(1)), CB(TRUE)}
 IntActuals(an, bn)  == {Name(an), Name(bn), Sub(Name("t"), CI(0)), Sub(Name("t"), CI(1)), Sub(Name("s"), CI(0)), CI(2)}
 
-Names == {<<"g", "a", "b">>, <<"g", "g_x", "x">>, <<"a", "a_y", "b">>, <<"fun", "y", "x">>}
+Names == {<<"g", "a", "b">>, <<"g", "g_x", "x">>, <<"a", "a_y", "b">>, <<"fun", "y", "x">>, <<"max", "a", "b">>}
 
 Pair(callee, sig, body, rd, route) ==
   [callee |-> callee, route |-> route,
